@@ -112,6 +112,20 @@ def cvc5_check(smt2: str, timeout_s: int):
         os.unlink(path)
 
 
+def _canary(ob):
+    """vacuity canary: the premises of a proved obligation must be satisfiable (else the path is dead)"""
+    from .calls import has_quantifier
+    ck = tuple(a.get_id() for a in ob.assumptions)
+    if ck not in _canary_cache:
+        cs = _solver(1000)
+        for a in ob.assumptions:
+            if not has_quantifier(a):
+                cs.add(a)
+        _canary_cache[ck] = cs.check() == z3.unsat
+    if _canary_cache[ck]:
+        ob.verdict = "dead"
+
+
 def discharge(ob: Ob, timeout_s: int, use_cvc5=True):
     t0 = time.time()
     goal = ob.goal
@@ -119,26 +133,32 @@ def discharge(ob: Ob, timeout_s: int, use_cvc5=True):
         ob.verdict, ob.backend = "proved", "eval"
         return
     ob.backend = "z3-" + z3.get_version_string()
-    # attempt 0: relevance filtering (sound: proving from FEWER premises); keeps noisy nonlinear / library facts
-    # that do not share a symbol with the goal out of the solver's way
-    if len(ob.assumptions) > 12:
+
+    def attempt(assumptions, ms):
+        sv = _solver(ms)
+        for a_ in assumptions:
+            sv.add(a_)
+        sv.add(z3.Not(to_z3(goal)))
+        return sv.check(), sv
+
+    # 1. everything, short budget (most obligations are immediate)
+    r, s = attempt(ob.assumptions, min(timeout_s, 4) * 1000)
+    # 2. relevance filtering (sound: proving from FEWER premises) keeps noisy nonlinear / library facts that share
+    #    no symbol with the goal out of the solver's way
+    if r == z3.unknown and len(ob.assumptions) > 12:
         for rounds in (1, 2):
             sub = relevant(ob.assumptions, to_z3(goal), rounds)
             if len(sub) == len(ob.assumptions):
                 break
-            s0 = _solver(min(timeout_s, 6) * 1000)
-            for a in sub:
-                s0.add(a)
-            s0.add(z3.Not(to_z3(goal)))
-            if s0.check() == z3.unsat:
+            r0, _ = attempt(sub, min(timeout_s, 10) * 1000)
+            if r0 == z3.unsat:
                 ob.verdict = "proved"
                 ob.time = time.time() - t0
+                _canary(ob)
                 return
-    s = _solver(timeout_s * 1000)
-    for a in ob.assumptions:
-        s.add(a)
-    s.add(z3.Not(to_z3(goal)))
-    r = s.check()
+    # 3. everything, full budget
+    if r == z3.unknown and timeout_s > 4:
+        r, s = attempt(ob.assumptions, timeout_s * 1000)
     if r == z3.unknown:
         # refutation attempt in a small scope: bound every symbolic length by 2 (extra constraints can only
         # remove models, so a `sat` here is a genuine counter-model of the original VC)
@@ -166,17 +186,7 @@ def discharge(ob: Ob, timeout_s: int, use_cvc5=True):
     ob.time = time.time() - t0
     if r == z3.unsat:
         ob.verdict = "proved"
-        # vacuity canary: the premises of a proved obligation must be satisfiable (else the path is dead)
-        from .calls import has_quantifier
-        ck = tuple(a.get_id() for a in ob.assumptions)
-        if ck not in _canary_cache:
-            cs = _solver(1000)
-            for a in ob.assumptions:
-                if not has_quantifier(a):
-                    cs.add(a)
-            _canary_cache[ck] = cs.check() == z3.unsat
-        if _canary_cache[ck]:
-            ob.verdict = "dead"
+        _canary(ob)
     elif r == z3.sat:
         ob.verdict = "refuted"
         ob.model = s.model()
